@@ -1,9 +1,17 @@
 #!/bin/bash
 # usage: tools/recheck_pairs.sh <workers> [seed-glob]  — re-runs, against the CURRENT checks, every (seeded change, check of ANOTHER property)
-# pair that raised an alarm in out/matrix/*.log; prints one line per pair. Cross alarms must be explained one by one (DESIGN §7.4).
+# pair that raised an alarm in out/matrix/*.log; one line per pair in out/recheck_pairs.out. Cross alarms must be explained one by one (DESIGN §7.4).
 cd "$(dirname "$0")/.."
 W=${1:-3}; G=${2:-*}
 for f in out/matrix/$G.log; do s=$(basename $f .log); p=${s%%-*}
+  [ -d seeded/$s ] || continue
+  [ "$(jq -r '.status_after_fix // ""' seeded/$s/meta.json)" = "" ] || continue
   grep -E "^C[0-9]+ exit=1" $f | awk '{print $1}' | grep -v "^$p$" | while read c; do echo "$s $c"; done
 done | sort -u > out/recheck_pairs.txt
-cat out/recheck_pairs.txt | xargs -P $W -L 1 sh -c 'o=$(LINES_MAX=3 tools/mutant_iso.sh seeded/$0/patch.diff $1 2>&1); echo "$0 $1 $(echo "$o" | grep -o "exit=[0-9]*" | head -1) $(echo "$o" | grep -m1 "^VIOLATION" | sed "s#.*replay=.*/##")"'
+split -n r/$W -d out/recheck_pairs.txt out/recheck_pairs.part.
+: > out/recheck_pairs.out
+for i in $(seq 0 $((W-1))); do
+  ( while read s c; do o=$(MWT_SLOT=rslot$i LINES_MAX=3 tools/mutant_iso.sh seeded/$s/patch.diff $c 2>&1); echo "$s $c $(echo "$o" | grep -o "exit=[0-9]*" | head -1) $(echo "$o" | grep -m1 "^VIOLATION" | sed "s#.*replay=.*/##")" >> out/recheck_pairs.out; done < out/recheck_pairs.part.0$i ) &
+done
+wait
+sort out/recheck_pairs.out
